@@ -10,6 +10,7 @@ import RapidModel.Generated.CallOrders
 import RapidProofs.PruneCustomAssert
 import RapidProofs.TranslatedMinEq
 import RapidProofs.TranslatedPruneEq
+import RapidProofs.PruneLiteralRun
 
 namespace Rapid.C05
 
@@ -166,6 +167,57 @@ theorem source_removeGroup (r r' : Rec) (hs : r.Small) (i fuel : Nat) (hf : r.gr
 theorem source_prune (r r' : Rec) (hs : r.Small) (fuel : Nat) (hf : 2 * r.groups.length + 4 ≤ fuel) (h : r.prune = some r') :
     Translated.recordedBits_prune r.data (r.groups.map goOf) true fuel = .ok (r'.data, r'.groups.map goOf, true) :=
   tr_prune r r' hs fuel hf h
+
+/-- **the literal `prune()` and the pruned recording of the theorems agree, for every program and every bit source**:
+    `Rec.prune` (the loop over `removeGroup`, proved equal to the source's by `source_prune`) applied to the recording of
+    a run succeeds whenever the pruned recording has no empty group, and leaves the data and the finished groups of
+    `prunedOfToks` — the recording `prune_data_is_kept`, `pruned_recording_well_formed` and the refinement of the passes
+    are about.  (Unfinished entries that directly follow a removed group in the list are dropped by `removeGroup` and
+    kept by `prunedOfToks`; no pass looks at them.) -/
+theorem literal_prune_of_run (p : Prog) (src : Src) (ts : TS)
+    (hne : (prunedOfToks (p.run src ts).toks).noEmptyGroup = true) :
+    ∃ r', (recOfToks (p.run src ts).toks).prune = some r' ∧ r'.finished = (prunedOfToks (p.run src ts).toks).finished :=
+  Rapid.literal_prune_of_run p src ts hne
+
+/-- … and so does the source: `recordedBits.prune()` of /repo, run on the recording of any run of any program (sizes
+    below 2^61), returns a recording with the data and the finished groups of `prunedOfToks` -/
+theorem source_prune_of_run (p : Prog) (src : Src) (ts : TS) (fuel : Nat)
+    (hs : (recOfToks (p.run src ts).toks).Small) (hf : 2 * (recOfToks (p.run src ts).toks).groups.length + 4 ≤ fuel)
+    (hne : (prunedOfToks (p.run src ts).toks).noEmptyGroup = true) :
+    ∃ r' : Rec, Translated.recordedBits_prune (recOfToks (p.run src ts).toks).data ((recOfToks (p.run src ts).toks).groups.map goOf) true fuel =
+        .ok (r'.data, r'.groups.map goOf, true) ∧
+      r'.finished = (prunedOfToks (p.run src ts).toks).finished := by
+  obtain ⟨r', h1, h2⟩ := Rapid.literal_prune_of_run p src ts hne
+  exact ⟨r', tr_prune _ r' hs fuel hf h1, h2⟩
+
+/-- for properties built from the generators and the `*T` API the assertion premise holds by itself -/
+theorem source_prune_of_generator_property (e : Env) (hrt : RTPos e) (p : Prog) (hp : PropProg e p) (src : Src) (ts : TS) (fuel : Nat)
+    (hs : (recOfToks (p.run src ts).toks).Small) (hf : 2 * (recOfToks (p.run src ts).toks).groups.length + 4 ≤ fuel) :
+    ∃ r' : Rec, Translated.recordedBits_prune (recOfToks (p.run src ts).toks).data ((recOfToks (p.run src ts).toks).groups.map goOf) true fuel =
+        .ok (r'.data, r'.groups.map goOf, true) ∧
+      r'.finished = (prunedOfToks (p.run src ts).toks).finished :=
+  source_prune_of_run p src ts fuel hs hf (pruned_noEmpty (propProg_gk e hrt hp) src ts)
+
+def exProg : Prog := .group "try" true (.draw 8 fun _ => .ret .nil) (fun _ => true) fun _ =>
+  .group "elem" true (.draw 8 fun _ => .ret .nil) (fun _ => false) fun _ => .ret .nil
+
+/-- the recording of a run with a rejected attempt followed by a kept element -/
+theorem exToks : (exProg.run (.buf [5, 7]) TS.fresh).toks =
+    [.opn "try" true, .w 5, .cls true, .opn "elem" true, .w 7, .cls false] := by
+  decide +kernel
+
+/-- the premises of `source_prune_of_run` are satisfiable -/
+example : (recOfToks (exProg.run (.buf [5, 7]) TS.fresh).toks).Small ∧
+    (prunedOfToks (exProg.run (.buf [5, 7]) TS.fresh).toks).noEmptyGroup = true ∧
+    (prunedOfToks (exProg.run (.buf [5, 7]) TS.fresh).toks).data = [7] := by
+  rw [exToks]
+  refine ⟨⟨by decide, by decide, ?_⟩, by decide, by decide⟩
+  intro g hg
+  have : (recOfToks [.opn "try" true, .w 5, .cls true, .opn "elem" true, .w 7, .cls false]).groups =
+      [⟨"try", true, 0, 1, true⟩, ⟨"elem", true, 1, 2, false⟩] := by decide
+  rw [this] at hg
+  simp only [List.mem_cons, List.not_mem_nil, or_false] at hg
+  rcases hg with rfl | rfl <;> exact ⟨by decide, by decide, by decide⟩
 
 /-- the premises are satisfiable: a recording with a discarded group between two kept ones -/
 example : (⟨[1, 2, 3], [⟨"a", true, 0, 1, false⟩, ⟨"b", true, 1, 2, true⟩, ⟨"c", true, 2, 3, false⟩]⟩ : Rec).Small ∧
